@@ -276,7 +276,7 @@ pub fn run(tier: Tier, seed: u64) -> i32 {
     run.shrink_iters = 40;
     run.enumerate("regress", load_regress("C12"), false, case_regress);
     if !run.failed() {
-        run.random("bash", tier.pick(40, 1_500), 64, case);
+        run.random("bash", tier.pick(40, 1_000), 64, case);
     }
     let code = run.finish();
     cleanup_scratch();
